@@ -4,16 +4,15 @@
 # run the unedited suite and the given quick checks against the copy. Development-time only.
 set -u
 D="$1"; shift
-S=/var/tmp/benigncopy
+S=${SCRATCH_COPY:-/var/tmp/benigncopy}
 rm -rf $S && mkdir -p $S && (cd /repo && git archive HEAD | tar -x -C $S)
 cd $S
 patch -p1 -s < "$D/patch.diff" || { echo "PATCH FAILED"; exit 3; }
 echo -n "suite: "; PYTHONPATH=$S /venv/bin/python -m pytest -q -p no:cacheprovider -x nptdms/test 2>&1 | tail -1
 cd /verif
 for c in "$@"; do
-  VERIF_REPO=$S timeout 1800 ./check $c --tier quick 2>&1 | grep -E " x |quick:|MACHINERY|KNOWN" > /var/tmp/benignout.txt
-  grep -E "quick:|MACHINERY" /var/tmp/benignout.txt | cut -c1-60
-  grep -E " x " /var/tmp/benignout.txt | head -3 | cut -c1-220
+  VERIF_REPO=$S timeout 1800 ./check $c --tier quick 2>&1 | grep -E " x |quick:|MACHINERY|KNOWN" > $S.out.txt
+  grep -E "quick:|MACHINERY" $S.out.txt | cut -c1-60
+  grep -E " x " $S.out.txt | head -3 | cut -c1-220
 done
-rm -rf /verif/.work/scratch-replays /verif/.work/scratch-evidence
-rm -rf $S
+rm -rf $S $S.out.txt
